@@ -590,7 +590,7 @@ func execBatch(b Batch) kit.Outcome {
 
 func TestBatches(t *testing.T) {
 	_ = gen.Pick
-	kit.Check(t, kit.Spec[Batch]{Sub: "batch", Quick: 3, Thorough: 14, Gen: genBatch, Exec: execBatch, NoShrink: true})
+	kit.Check(t, kit.Spec[Batch]{Sub: "batch", Quick: 3, Thorough: 60, Gen: genBatch, Exec: execBatch, NoShrink: true})
 }
 
 func TestReplay(t *testing.T) {
